@@ -37,6 +37,9 @@ checks = {
  "C14": ("E1", E1,
    "All schedules (pre-emption bound 2/3 for 1-2 callers, delay bound 2-3 for 3-8 callers; happens-before state cache) of a target coroutine with generator shape fixed / echo / accumulate serving 1-8 caller coroutines x 1-7 YieldFrom requests (including 7 sequential requests and 7-8 simultaneously pending ones, more than the channel buffer of 5), started before or after the callers; StartWithVal alone and racing with a caller that asks as soon as IsStarted reports true; DoNotation and YieldFromIO(Just / New). Oracle: the i-th request taken by the target returns that request's x to YieldRef and the i-th yielded value to exactly the caller that made it, per-caller order, nothing lost / duplicated / invented, lifecycle flags.",
    "Bounded callers/requests/deviations; SC interleavings; vsched runtime model.", "DESIGN.md §2, §5 C14"),
+ "C10": ("E1", "exhaustive enumeration of re-entrant operation histories on the real Publisher (all callback-behaviour vectors x all histories up to a depth) plus " + E1,
+   "Re-entrant part: every history over {Subscribe(i), Unsubscribe(i), Publish} up to depth 4 (thorough 5) x every vector of callback behaviours (nothing / unsubscribe self / next / previous / subscribe a new one / nested publish) for 3 subscribers, plus Map chains of 1-3 hops, executed on the real Publisher and checked call by call (nested calls included) against the delivery rule. Concurrent part: all schedules (pre-emption bound 2/3) of 1-2 publishing goroutines against a goroutine that subscribes / unsubscribes, callbacks yielding, with and without SubscribeOn(handler): registered-before-and-through => exactly once, unsubscribed-before-begin => never, otherwise at most once; with a handler never on the publishing goroutine.",
+   "Bounded subscribers/history depth/pre-emptions; SC interleavings; vsched runtime model.", "DESIGN.md §3, §2, §5 C10"),
 }
 
 not_yet = "check not built yet in this round (see DESIGN.md §9 build order); no claim made"
